@@ -372,6 +372,7 @@ const (
 // sign every ordinary input with enough of its owners (key order preserved)
 func (w *c05GWorld) sign(tx *common.Transaction, ins []*c05GUtxo, mode c05SigMode) *common.SignedTransaction {
 	signed := &common.SignedTransaction{Transaction: *tx}
+	uneven := len(ins) > 1 && w.r.Chance(1, 5)
 	choose := func(g *c05GUtxo) []*common.Address {
 		th := 0
 		if len(g.u.Script) == 3 {
@@ -380,6 +381,12 @@ func (w *c05GWorld) sign(tx *common.Transaction, ins []*c05GUtxo, mode c05SigMod
 		n := th
 		if n < len(g.owners) && w.r.Chance(1, 3) {
 			n = w.r.Range(th, len(g.owners))
+		}
+		if uneven { // some inputs fully signed, others partially or not at all
+			n = Pick(w.r, []int{0, th - 1, th, len(g.owners), len(g.owners)})
+		}
+		if n < 0 {
+			n = 0
 		}
 		if n > len(g.owners) {
 			n = len(g.owners)
@@ -439,7 +446,7 @@ func (w *c05GWorld) sigModeFor(ins []*c05GUtxo) c05SigMode {
 }
 
 func c05BuildTransfer(w *c05GWorld, mut func(*common.Transaction)) (*common.SignedTransaction, string) {
-	max := 4
+	max := Pick(w.r, []int{4, 4, 4, 8})
 	if w.r.Chance(1, 40) {
 		max = 256
 	}
@@ -485,7 +492,16 @@ func c05BuildMint(w *c05GWorld, mut func(*common.Transaction)) (*common.SignedTr
 	tx := common.NewTransactionV5(common.XINAssetId)
 	amt := big.NewInt(50000000 + int64(w.r.Intn(2)))
 	tx.AddUniversalMintInput(uint64(99+w.r.Intn(5)), integerFromBig(amt))
-	w.addChange(tx, amt, w.r.Range(1, 3))
+	outAmt := amt
+	if w.r.Chance(1, 4) { // the same input also carries a deposit section of another amount
+		damt := big.NewInt(int64(w.r.Range(1, 2000)) * 100000)
+		tx.Inputs[0].Deposit = &common.DepositData{Chain: common.BitcoinAssetId, AssetKey: "c6d0c728-2624-429b-8e0d-d9d19b6592fa",
+			Transaction: fmt.Sprintf("%x", w.r.Bytes(16)), Index: uint64(w.r.Intn(3)), Amount: integerFromBig(damt)}
+		if w.r.Bool() {
+			outAmt = damt
+		}
+	}
+	w.addChange(tx, outAmt, w.r.Range(1, 3))
 	mut(tx)
 	signed := &common.SignedTransaction{Transaction: *tx}
 	_ = signed.SignRaw(w.acct().PrivateSpendKey)
@@ -539,6 +555,14 @@ func c05BuildDeposit(w *c05GWorld, mut func(*common.Transaction)) (*common.Signe
 	}
 	tx.AddDepositInput(d)
 	tx.AddScriptOutput([]*common.Address{w.acct()}, common.NewThresholdScript(1), integerFromBig(amt), w.seed())
+	if w.r.Chance(1, 8) { // the same input also carries a mint section of another amount
+		mamt := big.NewInt(50000000 + int64(w.r.Intn(2)))
+		tx.Inputs[0].Mint = &common.MintData{Group: "UNIVERSAL", Batch: uint64(99 + w.r.Intn(5)), Amount: integerFromBig(mamt)}
+		tx.Asset = common.XINAssetId
+		if w.r.Bool() {
+			tx.Outputs[0].Amount = integerFromBig(mamt)
+		}
+	}
 	mut(tx)
 	signed := &common.SignedTransaction{Transaction: *tx}
 	key := w.acct().PrivateSpendKey
@@ -881,6 +905,7 @@ func (w *c05GWorld) preMutation() (func(*common.Transaction), string) {
 			tx.Inputs = []*common.Input{{Mint: &common.MintData{Group: "UNIVERSAL", Batch: 200, Amount: tx.Outputs[0].Amount}}}
 			tx.Outputs = tx.Outputs[:1]
 		}},
+		{"multi-section-input", func(tx *common.Transaction) { w.multiSectionInput(tx) }},
 		{"genesis-input", func(tx *common.Transaction) { Pick(r, tx.Inputs).Genesis = r.Bytes(r.Range(1, 32)) }},
 		{"input-index", func(tx *common.Transaction) { Pick(r, tx.Inputs).Index = uint(Pick(r, []int{1, 2, 1023, 1024})) }},
 		{"extra-size", func(tx *common.Transaction) { tx.Extra = r.Bytes(Pick(r, []int{0, 1, 63, 64, 65, 95, 96, 97, 256, 257})) }},
@@ -1152,6 +1177,7 @@ var c05VBuilders = []struct {
 }{
 	{c05BuildTransfer, 30}, {c05BuildMint, 5}, {c05BuildDeposit, 8}, {c05BuildWithdrawalSubmit, 6}, {c05BuildWithdrawalClaim, 7},
 	{c05BuildNodePledge, 6}, {c05BuildNodeAccept, 6}, {c05BuildNodeCancel, 4}, {c05BuildNodeRemove, 6}, {c05BuildCustodianUpdate, 2},
+	{c05BuildBoundary, 7}, {c05BuildAggregateMulti, 10}, {c05BuildBoundDeposit, 6},
 }
 
 func c05GenValidateCase(r *Rand, forceMut string, forceBuilder c05Builder) []string {
@@ -1206,7 +1232,11 @@ func c05GenValidateCase(r *Rand, forceMut string, forceBuilder c05Builder) []str
 			continue
 		}
 		if post {
-			w.postMutation(signed)
+			if w.r.Chance(2, 5) {
+				w.craftSignatures(signed)
+			} else {
+				w.postMutation(signed)
+			}
 		}
 		if forceMut == "node-remove-typed" {
 			signed.SignaturesMap, signed.AggregatedSignature = nil, nil
@@ -1286,6 +1316,9 @@ func init() {
 		},
 		Gen: func(r *Rand, i int, tier string) []string {
 			if r.Chance(1, 12) {
+				if r.Bool() {
+					return c05GenCraftedBatch(r)
+				}
 				return c05GenBatchCase(r)
 			}
 			return c05GenValidateCase(r, "", nil)
